@@ -33,6 +33,21 @@ CHECKS = {
             "2-3 connections, 1-2 channels: create (sender first / receiver first with capacity in {0,1,4,5,6}), claim either end by anyone, close either end by anyone, SendItem by anyone, AddChannelCapacity in {0,1,5} by anyone (credit bounded to 12), disconnects; plus the overflow corner with capacities 2^32-2, 2^32-1 and grants 1, 2, 2^32-1. Oracles: refbus end state machine and credit arithmetic, every notification exactly once, monitor 'items forwarded <= initial + granted capacity', snapshot invariant sender credit <= receiver credit and equal at or below the low-water mark. The client half (real Sender/Receiver under schedules) is part of C06.",
             "item ordering across in-flight items is not observable with one message per step; it is covered by the client-level check",
             "DESIGN.md §5 C05"),
+    "C09": ("busmc", "fault_enumeration",
+            "explicit-state BFS over bus histories with every connection ended at every position in each of the four ways (plus request-queued-then-task-dropped and request-queued-behind-kick), the real broker as transition function, teardown + idle shutdown after every transition",
+            "Union alphabet at minimal pools (objects, services, calls, replies, aborts, three kinds of subscription, events, channels, claims, items, capacity, listeners, filters, start/stop, introspection register/query/reply) on 3 connections; from every reached state (depth 5 / 4 / 3, thorough 7 / 5 / 5) every action, every disconnect way of every connection (client Shutdown, transport dropped, BrokerHandle::shutdown_connection, connection task dropped), every request also as 'queued, then the sender's task is dropped' and 'queued behind a kick of its sender', and broker shutdown. After every transition: statistics gauges == sizes of the real maps, all H1 cross-reference invariants, abstracted snapshot == refbus, connection task results; then all survivors are ended (way varies with the history), the model must be empty, shutdown_idle must stop the broker and every task must have finished.",
+            "known finding F4 (unobserved dropped task) is listed in known-findings.json and printed as KNOWN-FINDING; the order in which survivors are ended is varied, not enumerated",
+            "DESIGN.md §5 C09"),
+    "C11": ("busmc", "model_checking",
+            "explicit-state BFS over sequences of arbitrary messages from one connection (full table-generated alphabet of all 63 kinds), real broker as transition function, lock-step against refbus, probe connection after every transition",
+            "A prepared bus (victim with object, service, pending call, established channel, started listener, introspection registration; second victim as caller/sender/subscriber; probe connection). The abuser's alphabet is generated from the frame table: every kind x every nested alternative x cookie arguments from {live foreign, own, stale, never-issued, fixed UUIDs} x serials from {0, 1, live broker serials, bogus} x payloads {None, well-formed, garbage, ServiceInfo, near-miss ServiceInfo, type-id set}: about 4 000 (core) / 16 000 (full) messages; BFS with canonical-state de-duplication to depth 2 (core) / 1 (full) in quick, 3 / 2 in thorough, for several version assignments. After every transition the probe connection must get SyncReply and create/destroy an object; outputs to victims and the internal snapshot must equal refbus (the protocol-defined effect); no task may panic and every step must reach quiescence.",
+            "known finding F5 (undecodable payload from a 1.20 peer closes an older recipient) is listed; longer abusive sequences only from de-duplicated states",
+            "DESIGN.md §5 C11"),
+    "C12": ("busmc", "model_checking",
+            "complete enumeration of the handshake and version-pair matrices plus explicit-state search of the gated kinds, on the real Acceptor / Broker / Connection, lock-step against refbus",
+            "A: every Connect (legacy) version in {0,13,14,15,19,20,21,2^32-1} and Connect2 major x minor in {0,1,2,2^32-1} x {0,13..21,255,2^32-1}, and non-connect first messages, against the real Acceptor (reply, accept result, negotiated version in the snapshot). B: for each negotiated version 1.14..1.20 every message kind introduced later, sent in a state where it would otherwise be served (closed below the gate, served per refbus at or above), and the never-gated kinds. C: a monitor active in every busmc run: no message kind newer than the recipient's version, no 1.20 container encoding in a payload delivered to a pre-1.20 peer. D: all (sender, receiver) version pairs (5x5 quick, 7x7 thorough) x call arguments / reply ok+err / event / channel item x 8 payload values with nested maps, sets, structs, bytes in the sender's newest epoch: the payload received must decode to the same value.",
+            "the client side of the handshake (ClientBuilder) is exercised by the client-level checks; payloads outside the corpus not reached",
+            "DESIGN.md §5 C12"),
     "C10": ("busmc", "model_checking",
             "explicit-state BFS (real broker as transition function), lock-step against the plain filter semantics restated in refbus, plus ordering monitors",
             "E-A: for each of 8 prepared bus states, all filter sets reachable by <= 4 (thorough 5) add/remove/clear operations over the 13 filters expressible with object UUIDs {U1,U2} and service UUIDs {S1,S2}, each followed by Start with the three scopes, stop, restart, destroy and foreign access, with an optional second started listener on the same connection; the cached flags are compared with their definition in every state. E-B: three listeners on two connections, filter add/remove, start/stop/destroy, two producers creating / destroying objects and services and disconnecting, BFS to depth 6 (8). Oracles: tagged current events exactly the matching entities then one marker; new events exactly once per connection; ordering monitors (creation before destruction, service events inside the object lifetime, nothing tagged after the marker).",
